@@ -171,7 +171,7 @@ def pca(mat):
         tuple -- eigenvalues, eigenvectors, score
     """
     scat = (mat-np.mean(mat.T, axis=1)).T
-    u, v = np.linalg.eig(np.cov(scat))
+    u, v = np.linalg.eigh(np.cov(scat))
     return u, v
 
 
